@@ -150,6 +150,84 @@ def r11_4(ctx, fx):
     ctx.floor(rid, n, 18, "FPU save sites + result_relation returns")
 
 
+CONV = {"conv_ss": "assign_signed_int_signed_int", "conv_su": "assign_signed_int_unsigned_int",
+        "conv_us": "assign_unsigned_int_signed_int", "conv_uu": "assign_unsigned_int_unsigned_int"}
+
+
+def r11_5(ctx):
+    """Native integer -> native integer conversions: range checks present wherever the instantiation needs them."""
+    rid = "R11.5"
+    ctx.rule(rid, "conversion range checks: for every instantiation of assign_{signed,unsigned}_int_{signed,unsigned}_int over 5 destination types x 5 source types x 4 destination policies x 4 source policies (has_infinity / has_nan on or off; drivers/int_conv.cc), the compiler computes from the library's own Extended_Int constants whether an ordinary source value can lie below (NeedLo) or above (NeedHi) the destination's ordinary range; where it can, every path of the instantiated function (branches the compiler folds to a constant are followed as folded) from entry to the plain copy `to = from` passes the false edge of a test `from < ...` (resp. `from > ...`) — otherwise an out-of-range value is copied bit for bit, lands on the encoding of an infinity or NaN (or wraps) and is reported as exact")
+    u = F.driver_unit("int_conv.cc", file_re=r"(checked_int_inlines\.hh|int_conv\.cc)",
+                      name_re=r"::(conv_|assign_(un)?signed_int_(un)?signed_int)")
+    u.root2 = os.path.join(F.VERIF, "drivers")
+    fx = ctx.extract([u])
+    inst = {}
+    for f in fx.functions:
+        if f.name in CONV.values() and not f.flag("pattern") and f.cfg:
+            inst[(f.name, tuple(f.j.get("targs") or ()))] = f
+    n = needed = 0
+    per = {}
+    for w in fx.functions:
+        if w.name not in CONV or w.flag("pattern"):
+            continue
+        ta = tuple(w.j.get("targs") or ())
+        ctx.require(rid, len(ta) == 6 and ta[4] in ("true", "false") and ta[5] in ("true", "false"), "unexpected template arguments of %s: %s" % (w.name, ta))
+        f = inst.get((CONV[w.name], ta[:4]))
+        ctx.require(rid, f is not None, "instantiation %s<%s> not found" % (CONV[w.name], ", ".join(ta[:4])))
+        copies = [a for a in f.walk() if a["k"] in ("assign", "ocall") and (a["k"] == "assign" or a.get("op") == "=")
+                  and f.deref(a["c"][0]) is not None and f.deref(a["c"][0]).get("n") == "to" and "from" in f.text(a)]
+        ctx.require(rid, len(copies) == 1, "%s: the plain copy `to = from` was not found (or is not unique)" % f.name)
+        copy = copies[0]
+
+        def cmp_in(cond, op):
+            for x in f.walk(cond):
+                if x["k"] in ("binop", "ocall") and x.get("op") in ("<", ">", "<=", ">="):
+                    cs = [f.deref(c) for c in x["c"]][-2:]
+                    o = x["op"]
+                    l, r = cs
+                    lf = l is not None and any(y["k"] == "ref" and y.get("n") == "from" for y in f.walk(l))
+                    rf = r is not None and any(y["k"] == "ref" and y.get("n") == "from" for y in f.walk(r))
+                    if lf == rf:
+                        continue
+                    if rf:
+                        o = {"<": ">", ">": "<", "<=": ">=", ">=": "<="}[o]
+                    if o[0] == op:
+                        return True
+            return False
+
+        # the `if` statements whose condition tests `from` from below / above
+        guards = {"<": set(), ">": set()}
+        for i in f.walk():
+            if i["k"] == "if":
+                for op in "<>":
+                    if cmp_in(f.deref(i["c"][2]), op):
+                        guards[op].add(f.deref(i["c"][2])["i"])
+        for flag, op, what in ((ta[4], "<", "below"), (ta[5], ">", "above")):
+            n += 1
+            label = "%s<%s> %s" % (f.name, ", ".join(ta[:4]), "lower check" if op == "<" else "upper check")
+            if flag != "true":
+                per[(w.name, "not needed")] = per.get((w.name, "not needed"), 0) + 1
+                ctx.ok(rid, label + " (not needed)", f.where())
+                continue
+            needed += 1
+
+            def eb(tc, taken, op=op):
+                if tc.get("cv") is not None and taken != tc["cv"]:
+                    return True
+                return (not taken) and tc["i"] in guards[op]
+            p = flow.Explorer(f, track_env=False).find_path("ENTRY", lambda x: False, target=lambda x: x["i"] == copy["i"], edge_blocked=eb)
+            if p is None:
+                per[(w.name, "checked")] = per.get((w.name, "checked"), 0) + 1
+                ctx.ok(rid, label, f.where(copy))
+            else:
+                ctx.violation(rid, label, f.where(copy), "an ordinary source value can lie %s the destination's ordinary range (Extended_Int constants of this instantiation), yet the copy `to = from` is reached without the test `from %s ...` (path %s; folded branches followed): the value is copied bit for bit and reported as V_EQ" % (what, op, flow.render_path(f, p)))
+    for k in sorted(per):
+        ctx.count(rid, "%s %s" % k, per[k])
+    ctx.floor(rid, n, 3200, "conversion instantiations x bounds")
+    ctx.floor(rid, needed, 1000, "bounds that need a check")
+
+
 def run(ctx):
     ctx.explanation = ("C11 discipline clauses: encodings and policies as compile-time witnesses (also with bounded coefficients), routing of every primitive's Result into the "
                        "policy, FPU rounding-mode pairing, and — thorough tier — a type-check of the whole library with bounded coefficients; the arithmetic of the primitives is not decided")
@@ -160,5 +238,6 @@ def run(ctx):
     r11_2(ctx, fx)
     r11_2b(ctx)
     r11_4(ctx, fx)
+    r11_5(ctx)
     if ctx.tier == "thorough":
         r11_3(ctx)
